@@ -1174,7 +1174,8 @@ PROP_THEOREMS = {
             "C13_counts_within_offered_buffers", "C13_wf_of_constructors", "C13_inflate_on_stored_streams_partial",
             "C13_inflate_finish_on_fresh_object_partial",
             "C13_ok_means_progress", "C13_progress_invariant_is_reachable",
-            "C13_finish_on_truncated_stored_stream_is_buffer_error_partial"],
+            "C13_finish_on_truncated_stored_stream_is_buffer_error_partial",
+            "C13_stream_end_is_stable_on_stored_streams_partial"],
     "C19": ["C19_boundary_record_roundtrip", "C19_no_record_elsewhere",
             "C19_rebuilt_decoder_continues_stored_streams_partial",
             "C19_stop_once_per_nonfinal_stored_block_partial", "C19_one_call_stops_after_exactly_one_stored_block_partial"],
